@@ -42,6 +42,9 @@ func drawGap(e *Env, d time.Duration) time.Duration {
 func runC20(e *Env) {
 	cc := e.drawChan(true, []int{2, 8})
 	d := idleTimes[e.P(len(idleTimes))]
+	if e.P(4) == 3 {
+		d = time.Duration(1000+e.P(4001)) * time.Millisecond // idle times between the usual ones
+	}
 	which := e.P(3) // 0 read-idle, 1 write-idle, 2 both
 	panicAt := 0
 	if e.P(4) == 3 {
